@@ -131,9 +131,9 @@ func VerifH_payload() {
 const vNEntries = 15
 
 type vEntry struct {
-	s          string
-	is, wf     bool // is a gfet4t7 entry; its duration text is a well-formed integer
-	ms         int64
+	s      string
+	is, wf bool // is a gfet4t7 entry; its duration text is a well-formed integer
+	ms     int64
 }
 
 func vEntryChoice(tag string) vEntry {
@@ -195,4 +195,32 @@ func VerifH_t4t7c() {
 	}
 	verifObserve("err", verifB2U(err != nil))
 	verifObserve("ms", uint64(got/time.Millisecond))
+}
+
+// Resource names: for a table of component values that flag validation accepts (the regular
+// expressions admit letters, digits, '-', '_', '.', and the empty string - so also ".", ".." and ""),
+// every resource name has exactly the segments projects/<project>/instances/<instance>/databases/<database>,
+// byte for byte: nothing the builders do (cleaning, joining, escaping) may drop or merge a segment.
+// The component values are concrete per combination; which combination is a solver variable.
+func VerifH_uri() {
+	vals := []string{"a1", "x.y", ".", "..", "", "-_-", "a..b"}
+	pi, ii, di := verifInt("projectIdx"), verifInt("instanceIdx"), verifInt("databaseIdx")
+	verifAssume(pi >= 0 && pi < 7 && ii >= 0 && ii < 7 && di >= 0 && di < 7)
+	for a := 0; a < 7; a++ {
+		for b := 0; b < 7; b++ {
+			for c := 0; c < 7; c++ {
+				if pi != a || ii != b || di != c {
+					continue
+				}
+				verifReach("combination")
+				opt := &ProberOptions{Project: vals[a], Instance: vals[b], Database: vals[c], InstanceConfig: vals[c]}
+				want := "projects/" + vals[a] + "/instances/" + vals[b] + "/databases/" + vals[c]
+				verifAssert(opt.databaseURI() == want, "C18: database resource name does not consist of exactly the supplied project, instance and database segments")
+				verifAssert(opt.instanceURI() == "projects/"+vals[a]+"/instances/"+vals[b], "C18: instance resource name does not consist of exactly the supplied project and instance segments")
+				verifAssert(opt.projectURI() == "projects/"+vals[a], "C18: project resource name does not consist of exactly the supplied project segment")
+				verifAssert(opt.instanceConfigURI() == "projects/"+vals[a]+"/instanceConfigs/"+vals[c], "C18: instance config resource name does not consist of exactly the supplied segments")
+			}
+		}
+	}
+	verifObserve("p", uint64(pi))
 }
